@@ -27,7 +27,7 @@ def monitor_units(prop):
     return out
 
 
-CLASS_MODULES = ["contracts.c20"]
+CLASS_MODULES = ["contracts.c20", "contracts.c01"]
 
 
 def class_units(prop):
@@ -60,6 +60,7 @@ FAMILIES = {
     "C26": ["monitor"],
     "C27": ["monitor"],
     "C39": ["forward"],
+    "C01": ["class", "subscribe"],
     "C20": ["class"],
     "C21": ["class"],
     "C23": ["class"],
@@ -77,6 +78,8 @@ def units_for(prop, tier):
         us += forward_units(prop)
     if "class" in fams:
         us += class_units(prop)
+    if "subscribe" in fams:
+        us.append({"runner": "subscribe_unit", "prop": prop, "id": "reactivex/observable/observable.py::Observable.subscribe"})
     for u in us:
         u["tier"] = tier
     return us
